@@ -13,9 +13,9 @@ ID = "C16"
 LEVEL = "exploration"
 TECHNIQUE = "bounded-exhaustive enumeration of optional-field sequences (by SAM tag type and punctuation class) through every re-serialising entry point, byte-level comparison"
 RULE = (
-    "tag alphabet of 25 well-formed fields by type (i: 0, -5, +3; f: 0.5, -0.5, .5, 1e-05, 3E+2; Z: alnum, one of _ # . - : * / each, interior "
+    "tag alphabet of 28 well-formed fields by type (i: 0, -5, +3; f: 0.5, -0.5, .5, 1e-05, 3E+2; Z: alnum, one of _ # . - : * / % each, the remaining printable punctuation, interior "
     "space, empty; A: P, *; B: i,1,-2 and f,0.5; H: 1AE3) + a repeated tag + ds:Z; every sequence of <=N fields (N=2 quick, 3 thorough) with the "
-    "CIGAR field absent or at every position; read name with and without a space; through view -n, view -f stable, view -f unstable, realign "
+    "CIGAR field absent or at every position; read name with and without a space; through view -n, view -f stable (both also on a bgzip-compressed GAF), view -f unstable, realign "
     "(<=60 kb) and realign pass-through (>60 kb). evaluations = records re-emitted and judged; non-trivial = records with >=1 optional field."
 )
 ASSUMPTIONS = [
@@ -39,9 +39,10 @@ ALPHA = [
     "ha:H:1AE3",
     "tp:A:P",
     "oc:Z:x4=4=y",  # contains the text of the input CIGAR used in realign mode
+    "zk:Z:100%", "zm:Z:%s %d%%", "zn:Z:!\"$&'()+,;<=>?@[\\]^`{|}~",  # the remaining printable punctuation, '%' on its own
 ]
 EXTRA = ["za:Z:again", "ds:Z:*2+a-t"]  # a repeated tag (za occurs in ALPHA), the ds tag
-MODES = ["view-n", "view-f-stable", "view-f-unstable", "realign", "realign-passthrough"]
+MODES = ["view-n", "view-f-stable", "view-f-unstable", "realign", "realign-passthrough", "view-n-bgzf", "view-f-stable-bgzf"]  # -bgzf: the GAF is bgzip-compressed
 
 
 def bounds(tier):
@@ -189,20 +190,27 @@ def make_view_inputs(scratch, mode, entries):
 def run_view_mode(res, scratch, mode, entries):
     from gaftools.cli import view
 
+    full_mode = mode
+    mode = mode.replace("-bgzf", "")
     g, gfa, recs = make_view_inputs(scratch, mode, entries)
     gaf = os.path.join(scratch, "in.gaf")
-    fw.write_text(gaf, "".join(r.line() + "\n" for r in recs))
+    text = "".join(r.line() + "\n" for r in recs)
+    if full_mode.endswith("-bgzf"):
+        gaf += ".gz"
+        vi.write_gaf(gaf, text, ("bgzip64k",))
+    else:
+        fw.write_text(gaf, text)
     outp = os.path.join(scratch, "out.gaf")
     if mode == "view-n":
         o, ind = vi.run_index(gaf, gfa)
         if ind is None:
-            res.fail(f"C16/{mode}:index-failed:{o.sig()}", f"index failed: {o.brief()}", {"mode": mode, "records": [r.line() for r in recs[:50]]})
+            res.fail(f"C16/{full_mode}:index-failed:{o.sig()}", f"index failed: {o.brief()}", {"mode": full_mode, "records": [r.line() for r in recs[:50]]})
             return recs, None
         out = fw.guarded(view.run, gaf_path=gaf, output=outp, nodes=["s1", "s2"])
     else:
         out = fw.guarded(view.run, gaf_path=gaf, gfa=gfa, output=outp, format="stable" if mode == "view-f-stable" else "unstable")
     if out.kind != "ok":
-        res.fail(f"C16/{mode}:failed:{out.sig()}", f"{mode} failed on well-formed records: {out.brief()}", {"mode": mode, "records": [r.line() for r in recs[:200]]})
+        res.fail(f"C16/{full_mode}:failed:{out.sig()}", f"{full_mode} failed on well-formed records: {out.brief()}", {"mode": full_mode, "records": [r.line() for r in recs[:200]]})
         return recs, None
     lines = open(outp).read().split("\n")
     return recs, [l for l in lines if l != ""]
